@@ -3,6 +3,9 @@
    ops:
      verify <ver> <hex id>:<hex json> <script>   -> ok | rej | panic:…          (+ specification)
      trace  <ver> <hex id>:<hex json> <script>   -> asked:<sorted requests "hexserver@ts/strict/redacted"> | none | -
+     member_reading <ver> <hex id>:<hex json>    -> m=<hex membership>,via=<hex authoriser> | err   (+ specification)
+       what NewMemberContentFromEvent — the reading of the auth rules — takes for the membership and the authoriser
+       of a restricted join, against what the content says under the exact member names
    script = "<hexserver>=<0|1>,...;<default 0|1>;<verifier error 0|1>"
 -/
 import VDriver.Util
@@ -75,8 +78,22 @@ def senderDomain (e : Event) : Option (Except Err (Option Bytes)) :=
   | some none => some (.error (errRej "sender"))
   | some (some u) => some (.ok (some u.domain))
 
+def showReading (r : MemberReading) : String := "m=" ++ hex r.membership ++ ",via=" ++ hex r.authorisedVia
+
 def handle (op : String) (args : Array String) : Option String :=
   match op, args.toList with
+  | "member_reading", [ver, ev] =>
+    let v := strBytes ver
+    match parseEvArg v ev with
+    | none => some "bad-op"
+    | some e =>
+      match memberContent e.content with
+      | none => some "err\tunspecified:ill-typed member content"
+      | some r =>
+        let s := match Spec.memberReading e.content with
+          | some r' => showReading r'
+          | none => "unspecified:duplicate member name"
+        some (showReading r ++ "\t" ++ s)
   | opn, [ver, ev, script] =>
     if opn != "verify" && opn != "trace" then none else
     let v := strBytes ver
@@ -91,9 +108,13 @@ def handle (op : String) (args : Array String) : Option String :=
             | .error _ => "rej"
           -- the property's clause "the sender's server validly signed": in a pseudo-ID room the server that
           -- vouches for the sender is the server of mxid_mapping.user_id, over the mapping of a join
-          let s := match membership e, getMXIDMapping e with
+          -- … and that mapping must be the SENDER's: `user_room_key` is the key that sent (and self-signed) the event
+          -- — a mapping for another key vouches for nothing here (K3).  The sender's own key must have signed.
+          let s := if !sc.selfValid e.sender then "rej" else
+            match membership e, getMXIDMapping e with
             | .ok mem, .ok mp =>
               if e.type == b!"m.room.member" && mem == b!"join" then
+                if mp.userRoomKey != e.sender then "rej" else
                 match userServer mp.userID with
                 | some srv => if mp.servers.contains srv && sc.valid srv && !sc.verr then "unspecified:pseudo-id" else "rej"
                 | none => "rej"
@@ -118,7 +139,7 @@ def handle (op : String) (args : Array String) : Option String :=
             | .error (.panic s) => "panic:" ++ s
             | .error _ => "rej"
           let s := match req with
-            | .unspecified => "unspecified:membership-unreadable"
+            | .unspecified => "unspecified:membership unreadable or member name repeated"
             | .undeterminable => "rej"
             | .servers l => if sc.verr then "unspecified:verifier-error" else if l.all sc.valid then "ok" else "rej"
           some (m ++ "\t" ++ s)
